@@ -1,5 +1,5 @@
 #!/usr/bin/env python3
-# usage: gen_benign_table.py b1|b2|b3|b4  — prints the DESIGN §10 table for one false-alarm round from /verif/benign/*/meta.json
+# usage: gen_benign_table.py b1..b5  — prints the DESIGN §10 table for one false-alarm round from /verif/benign/*/meta.json
 import json, os, re, sys
 rnd = sys.argv[1] if len(sys.argv) > 1 else "b2"
 root = "/verif/benign"
